@@ -223,6 +223,11 @@ theorem pair_text_preconditions (fuel : Nat) (r : RuleId) (input : List Char) (p
   exact ⟨ParseText.operationType_ok hw, ParseText.escapedCharacter_ok hw, ParseText.blockString_len hw,
     ParseText.unicode4_len hw, ParseText.normalChar_text hw, ParseText.unicodeBrace_child hw⟩
 
+/-- the hypothesis of `pair_text_preconditions` is satisfiable -/
+example : (match Peg.parse gList 64 R.OperationType "query".toList with
+    | .pairs [.mk r 0 5 [_]] => r == R.OperationType
+    | _ => false) = true := by decide +kernel
+
 /-- `parse_no_panic`: NO input text makes the model of `parse_operation_document` or of
     `parse_type_system_document` end in a panic: every result is a document, a `ParseError` with a position, or the
     model's own depth bound (`outOfFuel`, which is not a behaviour of the Rust code) — never `Outcome.panic`.
